@@ -13,10 +13,12 @@
     extensions and comparisons use the signed view exactly for the signed variants
 """
 import ast
+import re
 
 from sa.astutil import walk_body, walk_local, dotted, norm, callee_attr, str_elts, clone
 from sa.optable import OT0
 from sa.repo import AnalysisError
+from sa.dispatch import tok_consts
 
 SC = "miasm/expression/simplifications_common.py"
 SX = "miasm/expression/simplifications_explicit.py"
@@ -79,9 +81,17 @@ def _branch_features(body):
             if isinstance(cmp_, ast.Compare) and isinstance(cmp_.ops[0], (ast.Gt, ast.GtE)):
                 lv = _view(cmp_.left, local)
                 if lv and lv[1] == "2" and norm(cmp_.comparators[0]) in ("int1.size", "int2.size"):
-                    outs = [norm(s.value) for s in walk_local(ast.Module(body=st.body, type_ignores=[])) if isinstance(s, ast.Assign) and norm(s.targets[0]) == "out"]
-                    sign_dep = any(isinstance(s, ast.If) and ("is_signed" in norm(s.test) or "1 << int1.size - 1" in norm(s.test)) for s in st.body)
-                    feats["sat"] = "sign" if (sign_dep and set(outs) == set(["-1", "0"])) else ("zero" if outs == ["0"] else "?")
+                    from sa.symval import paths as _paths
+                    outs, sign_dep = [], False
+                    for p_ in _paths(st.body, env=dict(local)):
+                        v_ = p_.env.get("out")
+                        if isinstance(v_, ast.IfExp):
+                            sign_dep = sign_dep or "sign" in norm(v_.test) or "1 << int1.size - 1" in norm(v_.test)
+                            outs += [norm(v_.body), norm(v_.orelse)]
+                        elif v_ is not None:
+                            outs.append(norm(v_))
+                        sign_dep = sign_dep or any("sign" in norm(c) or "1 << int1.size - 1" in norm(c) for c, _b in p_.conds)
+                    feats["sat"] = "sign" if (sign_dep and set(outs) == set(["-1", "0"])) else ("zero" if set(outs) == set(["0"]) else "?")
                     body2 = st.orelse
                     for s in body2:
                         _collect_ops(s, local, feats)
@@ -172,28 +182,11 @@ def _rotation(stmts):
     """Classify a straight-line rotation folding: returns ('ROTR'|'ROTL'|'ROT_COUNT_MASKED'|'ROT_UNREDUCED'|None, description).
     Assignments are substituted in order, widths are unified (the folding loop only pairs constants of one width), then
     out = (x SH1 A) | (x SH2 B) is matched with A a count reduced modulo the width and B = width - A."""
-    from sa.astutil import clone
-    env = {}
-
-    def subst(e):
-        class T(ast.NodeTransformer):
-            def visit_Name(self, n):
-                if isinstance(n.ctx, ast.Load) and n.id in env:
-                    return clone(env[n.id])
-                return n
-        return T().visit(clone(e))
-    out = None
-    for st in stmts:
-        if isinstance(st, ast.Assign) and len(st.targets) == 1 and isinstance(st.targets[0], ast.Name):
-            v = subst(st.value)
-            if st.targets[0].id == "out":
-                out = v
-            else:
-                env[st.targets[0].id] = v
-        elif isinstance(st, (ast.Expr, ast.Pass)):
-            continue
-        else:
-            return None, "statement `%s` in a rotation branch" % norm(st)[:50]
+    from sa.symval import paths
+    ps = [p_ for p_ in paths(stmts) if p_.kind in ("fall", "return")]
+    if len(ps) != 1:
+        return None, "%d paths through a rotation branch" % len(ps)
+    out = ps[0].env.get("out")
     if out is None:
         return None, "no assignment to out"
 
@@ -320,8 +313,8 @@ def run(ck):
     ok = any(isinstance(n, ast.Assign) and norm(n.value).replace(" ", "") in ("arg&(1<<size)-1",) for n in walk_body(newi))
     ck.ob("R2", "ExprInt:modular", ok, ex.where(newi), "ExprInt no longer reduces its value modulo 2^size")
     cmpf = m.func("simp_cmp_int_int")
-    rets = [norm(n.value) for n in walk_body(cmpf) if isinstance(n, ast.Return) and isinstance(n.value, ast.Call)]
-    ok = "ExprInt(ret, 1)" in rets and "ExprInt(1, 1)" in rets
+    rets = [n.value for n in walk_body(cmpf) if isinstance(n, ast.Return) and isinstance(n.value, ast.Call) and norm(n.value.func) == "ExprInt"]
+    ok = len(rets) >= 2 and all(len(r_.args) == 2 and norm(r_.args[1]) in ("1", "expr.size") for r_ in rets)
     ck.ob("R2", "compare:one-bit", ok, m.where(cmpf), "comparison folding must produce a 1-bit constant")
     ok = any(isinstance(n, ast.Return) and norm(n.value) == "ExprInt(parity(int(args[0])), 1)" for n in walk_body(fn))
     ck.ob("R2", "parity:one-bit", ok, m.where(fn), "parity folding must produce ExprInt(parity(value), 1)")
@@ -356,24 +349,176 @@ def run(ck):
     ap = pf.args.args[0].arg
     ck.ob("R5", "parity:low-byte", ("tmp=%s&255" % ap) in txt, eh.where(pf), "parity must be computed on the low byte only")
     ck.ob("R5", "parity:even-is-1", "cpt=1" in txt and "cpt^=tmp&1" in txt and "tmp>>=1" in txt, eh.where(pf), "parity must be 1 for an even number of set bits")
-    txt = norm(ast.Module(body=fn.body, type_ignores=[]))
-    ck.ob("R5", "cnttrailzeros:zero-gives-size", "while int(args[0]) & 1 << i == 0 and i < args[0].size:" in txt and "return ExprInt(i, args[0].size)" in txt,
-          m.where(fn), "cnttrailzeros(0) must fold to the width")
-    ck.ob("R5", "cntleadzeros:zero-gives-size", "if int(args[0]) == 0:\n    return ExprInt(args[0].size, args[0].size)" in txt.replace("        ", "").replace("    if", "if") or
-          "return ExprInt(args[0].size, args[0].size)" in txt, m.where(fn), "cntleadzeros(0) must fold to the width")
-    ck.ob("R5", "cntleadzeros:formula", "return ExprInt(expr.size - (i + 1), args[0].size)" in txt and "i = args[0].size - 1" in txt, m.where(fn),
-          "cntleadzeros must count from the most significant bit")
-    ck.ob("R5", "neg:formula", "return ExprInt(-int(args[0]), expr.size)" in txt, m.where(fn), "unary minus must fold to -value modulo 2^size")
+    _r5_counts(ck, m, fn)
+    _r5_views(ck, m, cmpf, tok_consts(ck.repo))
+
+
+def _canon_x(t):
+    t = t.replace(" ", "")
+    for a, b in (("int(args[0])", "x"), ("args[0].arg", "x"), ("args[0].size", "W"), ("expr.size", "W")):
+        t = t.replace(a, b)
+    return t
+
+
+def _branch(fn, op):
+    """The top-level `if op_name == <op> and ...:` statement of simp_cst_propagation."""
+    for st in fn.body:
+        if isinstance(st, ast.If):
+            t = norm(st.test)
+            if ("op_name == '%s'" % op) in t and "is_int" in t:
+                return st
+    return None
+
+
+def _bit_zero(conj, i="i"):
+    """Is the conjunct `bit <i> of x is zero`?"""
+    t = _canon_x(conj)
+    return t in ("x&1<<%s==0" % i, "x&(1<<%s)==0" % i, "notx&1<<%s" % i, "x>>%s&1==0" % i, "(x>>%s)&1==0" % i, "not(x>>%s)&1" % i, "notx>>%s&1" % i)
+
+
+def _conjuncts(test):
+    if isinstance(test, ast.BoolOp) and isinstance(test.op, ast.And):
+        out = []
+        for v in test.values:
+            out.extend(_conjuncts(v))
+        return out
+    return [test]
+
+
+def _r5_counts(ck, m, fn):
+    from sa.astutil import straightline_env, linear
+    from sa.symval import subst
+    # ---- cnttrailzeros: i = 0; while bit i of x is zero and i < W: i += 1; result ExprInt(i, W)
+    br = _branch(fn, "cnttrailzeros")
+    ok_t = False
+    detail = "branch not found"
+    if br is not None:
+        loops = [k for k, st in enumerate(br.body) if isinstance(st, ast.While)]
+        if len(loops) == 1:
+            k = loops[0]
+            env = straightline_env(br.body[:k])
+            lp = br.body[k]
+            conj = [subst(c, dict((a, b) for a, b in env.items() if a != "i")) for c in _conjuncts(lp.test)]
+            init = env.get("i")
+            step = [st for st in lp.body if isinstance(st, ast.AugAssign) and norm(st.target) == "i" and isinstance(st.op, ast.Add) and norm(st.value) == "1"]
+            rets = [st for st in br.body[k + 1:] if isinstance(st, ast.Return)]
+            bound = any(_canon_x(norm(c)) in ("i<W", "W>i") for c in conj)
+            zero = any(_bit_zero(norm(c)) for c in conj)
+            r_ok = bool(rets) and isinstance(rets[0].value, ast.Call) and norm(rets[0].value.func) == "ExprInt" and \
+                _canon_x(norm(subst(rets[0].value.args[0], dict((a, b) for a, b in env.items() if a != "i")))) == "i" and \
+                _canon_x(norm(subst(rets[0].value.args[1], env))) == "W"
+            ok_t = init is not None and norm(init) == "0" and len(step) == 1 and len(lp.body) == 1 and bound and zero and len(conj) == 2 and r_ok
+            detail = "loop `while %s` from i = %s, result `%s`" % (norm(lp.test), norm(init) if init is not None else "?", norm(rets[0].value) if rets else "?")
+    ck.ob("R5", "cnttrailzeros:zero-gives-size", ok_t, m.where(br or fn),
+          "cnttrailzeros must count the zero bits from bit 0 and stop at the width (so that 0 gives the width): %s" % detail)
+    # ---- cntleadzeros: 0 -> W; i = W - 1; while bit i zero: i -= 1; result ExprInt(W - (i + 1), W)
+    br = _branch(fn, "cntleadzeros")
+    ok_g = ok_f = False
+    detail = "branch not found"
+    if br is not None:
+        loops = [k for k, st in enumerate(br.body) if isinstance(st, ast.While)]
+        if len(loops) == 1:
+            k = loops[0]
+            pre = br.body[:k]
+            env = straightline_env([st for st in pre if not isinstance(st, ast.If)])
+            guards = [st for st in pre if isinstance(st, ast.If)]
+            for g in guards:
+                t = _canon_x(norm(subst(g.test, env)))
+                r_ = [x for x in g.body if isinstance(x, ast.Return)]
+                if t in ("x==0", "notx", "0==x") and r_ and isinstance(r_[0].value, ast.Call) and \
+                        [_canon_x(norm(subst(a, env))) for a in r_[0].value.args] == ["W", "W"]:
+                    ok_g = True
+            env2 = dict((a, b) for a, b in env.items() if a != "i")
+            lp = br.body[k]
+            conj = [subst(c, env2) for c in _conjuncts(lp.test)]
+            init = env.get("i")
+            step = [st for st in lp.body if isinstance(st, ast.AugAssign) and norm(st.target) == "i" and isinstance(st.op, ast.Sub) and norm(st.value) == "1"]
+            rets = [st for st in br.body[k + 1:] if isinstance(st, ast.Return)]
+            r_ok = False
+            if rets and isinstance(rets[0].value, ast.Call) and norm(rets[0].value.func) == "ExprInt":
+                a0 = ast.parse(_canon_x(norm(subst(rets[0].value.args[0], env2))), mode="eval").body
+                terms, c = linear(a0)
+                r_ok = dict(terms) == {"W": 1, "i": -1} and c == -1 and _canon_x(norm(subst(rets[0].value.args[1], env))) == "W"
+            i_ok = init is not None and _canon_x(norm(init)) == "W-1"
+            ok_f = i_ok and len(step) == 1 and len(lp.body) == 1 and len(conj) == 1 and _bit_zero(norm(conj[0])) and r_ok
+            detail = "loop `while %s` from i = %s, result `%s`" % (norm(lp.test), norm(init) if init is not None else "?", norm(rets[0].value) if rets else "?")
+    ck.ob("R5", "cntleadzeros:zero-gives-size", ok_g, m.where(br or fn), "cntleadzeros(0) must fold to the width")
+    ck.ob("R5", "cntleadzeros:formula", ok_f, m.where(br or fn), "cntleadzeros must count from the most significant bit: %s" % detail)
+    # ---- unary minus
+    ok = False
+    for st in fn.body:
+        if isinstance(st, ast.If) and "op_name == '-'" in norm(st.test) and "len(args) == 1" in norm(st.test) and "is_int" in norm(st.test):
+            for r_ in st.body:
+                if isinstance(r_, ast.Return) and isinstance(r_.value, ast.Call) and norm(r_.value.func) == "ExprInt":
+                    ok = [_canon_x(norm(a)) for a in r_.value.args] == ["-x", "W"]
+    ck.ob("R5", "neg:formula", ok, m.where(fn), "unary minus must fold to -value modulo 2^size")
+
+
+def _view_of(e):
+    """('S'|'U'|'?', text of the viewed operand): mod_size2int[..](x) is the signed view, mod_size2uint[..](x) / int(x) / x the unsigned one."""
+    while isinstance(e, ast.Call) and callee_attr(e) == "int" and isinstance(e.func, ast.Name) and len(e.args) == 1:
+        e = e.args[0]
+    if isinstance(e, ast.Call) and isinstance(e.func, ast.Subscript) and dotted(e.func.value) in ("mod_size2int", "mod_size2uint") and len(e.args) == 1:
+        x = e.args[0]
+        while isinstance(x, ast.Call) and callee_attr(x) == "int" and isinstance(x.func, ast.Name) and len(x.args) == 1:
+            x = x.args[0]
+        szof = norm(e.func.slice).replace(".size", "")
+        if szof != norm(x):
+            return "?", norm(x)
+        return ("S" if dotted(e.func.value) == "mod_size2int" else "U"), norm(x)
+    if isinstance(e, (ast.Name, ast.Attribute, ast.Subscript)):
+        return "U", norm(e)
+    return "?", norm(e)
+
+
+def _r5_views(ck, m, cmpf, toks):
+    from sa.symval import paths, op_decider
+    from sa.astutil import less_than
+    # extensions
     ef = m.func("simp_ext_cst")
-    t = norm(ast.Module(body=ef.body, type_ignores=[]))
-    ok = "if expr.op.startswith('zeroExt'):\n    ret = int(arg)\nelse:\n    ret = int(mod_size2int[arg.size](int(arg)))" in t.replace("    if", "if").replace("\n    ", "\n", 1) or \
-        ("ret = int(arg)" in t and "ret = int(mod_size2int[arg.size](int(arg)))" in t and "ret = ExprInt(ret, expr.size)" in t)
-    ck.ob("R5", "ext:views", ok, m.where(ef), "zero extension must use the unsigned value, sign extension the signed view, re-masked to the new width")
-    t = norm(ast.Module(body=cmpf.body, type_ignores=[]))
-    ok = "if expr.op in [TOK_INF_SIGNED, TOK_INF_EQUAL_SIGNED]:" in t and "int_a = int(mod_size2int[int_a.size](int(int_a)))" in t and \
-        "int_a = int(mod_size2uint[int_a.size](int(int_a)))" in t and "if expr.op in [TOK_INF_SIGNED, TOK_INF_UNSIGNED]:" in t and \
-        "ret = int_a < int_b" in t and "ret = int_a <= int_b" in t
-    ck.ob("R5", "compare:views", ok, m.where(cmpf), "signed comparisons must use the signed view, unsigned ones the unsigned view; < vs <= by operator")
+    ok = True
+    seen = 0
+    for op, want in (("zeroExt_32", "U"), ("signExt_32", "S")):
+        for p_ in paths(ef.body, decide=op_decider(("expr.op",), op, toks)):
+            if p_.kind != "return" or not (isinstance(p_.value, ast.Call) and norm(p_.value.func) == "ExprInt"):
+                continue
+            seen += 1
+            v, who = _view_of(p_.value.args[0])
+            ok = ok and v == want and norm(p_.value.args[1]) == "expr.size" and who == "expr.args[0]"
+    ck.ob("R5", "ext:views", ok and seen >= 2, m.where(ef), "zero extension must use the unsigned value, sign extension the signed view, re-masked to the new width")
+    # comparisons
+    REF = {"<u": ("U", "<"), "<=u": ("U", "<="), "<s": ("S", "<"), "<=s": ("S", "<=")}
+    ok = True
+    seen = 0
+    detail = ""
+    for op, (view, rel) in sorted(REF.items()):
+        for p_ in paths(cmpf.body, decide=op_decider(("expr.op",), op, toks)):
+            if p_.kind != "return" or not (isinstance(p_.value, ast.Call) and norm(p_.value.func) == "ExprInt"):
+                continue
+            v0 = p_.value.args[0]
+            pol = True
+            if isinstance(v0, ast.IfExp) and isinstance(v0.body, ast.Constant) and isinstance(v0.orelse, ast.Constant) and (v0.body.value, v0.orelse.value) in ((1, 0), (0, 1)):
+                pol = v0.body.value == 1
+                v0 = v0.test
+            elif isinstance(v0, ast.Constant) and v0.value in (0, 1):
+                # `if <comparison>: ret = 1 else: ret = 0`: the comparison is the last path condition
+                cmpc = [(c, b) for c, b in p_.conds if less_than(c, True) is not None and "is_int" not in norm(c)]
+                if not cmpc:
+                    continue
+                c, b = cmpc[-1]
+                pol = (b == bool(v0.value))
+                v0 = c
+            lt = less_than(v0, pol)
+            if lt is None:
+                continue
+            seen += 1
+            (va, wa), (vb, wb) = _view_of(lt[0]), _view_of(lt[1])
+            good = va == vb == view and lt[2] == (rel == "<") and wa != wb and norm(p_.value.args[1]) == "1"
+            if not good:
+                ok = False
+                detail = "%s folds as `%s`" % (op, norm(v0))
+    ck.ob("R5", "compare:views", ok and seen >= 4, m.where(cmpf),
+          "signed comparisons must use the signed view, unsigned ones the unsigned view; < vs <= by operator (%s)" % (detail or "%d folding paths understood" % seen))
 
 
 def _ancestors(n):
